@@ -407,7 +407,17 @@ fn run_miri_tier(id: &str, n: usize, max_tape: usize, seed: u64) -> Result<(u64,
             }
             continue;
         }
-        let ub = stderr.lines().find(|l| l.starts_with("error: Undefined Behavior") || l.starts_with("error: memory leaked") || l.starts_with("error:"));
+        let ub = stderr.lines().find(|l| {
+            l.starts_with("error: Undefined Behavior") || l.starts_with("error: memory leaked") || l.starts_with("error: deadlock") || l.starts_with("error: the evaluated program")
+        });
+        if ub.is_none() && stdout.lines().all(|l| !l.starts_with("MIRI-VIOLATION")) {
+            // e.g. "unsupported operation": an infrastructure problem, never a verdict
+            return Err(format!(
+                "miri part {} stopped without a verdict: {}",
+                path.display(),
+                stderr.lines().filter(|l| l.starts_with("error")).take(3).collect::<Vec<_>>().join(" | ")
+            ));
+        }
         let model = stdout.lines().find(|l| l.starts_with("MIRI-VIOLATION"));
         let (sig, detail) = match (model, ub) {
             (Some(m), _) => ("miri-run:model-mismatch".to_string(), m.to_string()),
